@@ -86,7 +86,8 @@ def check(prog: Program, tier: str) -> Result:
     _r12_4(prog, res)
     _r12_5(prog, res)
     _r12_6(prog, res)
-    res.floors.update({"R12.1": 18, "R12.2": 11, "R12.3": 3, "R12.4": 8, "R12.5": 1, "R12.6": 4})
+    _r12_7(prog, res)
+    res.floors.update({"R12.1": 18, "R12.2": 11, "R12.3": 3, "R12.4": 8, "R12.5": 1, "R12.6": 4, "R12.7": 4})
     return res
 
 
@@ -525,10 +526,54 @@ def _r12_5(prog: Program, res: Result) -> None:
         res.decide(ok, "R12.5", fn.loc(tail), fn.fq, "result after the loop is exhausted", "no match" if ok else "falling out of the expansion loop no longer means 'no match'")
 
 
+def _r12_7(prog: Program, res: Result) -> None:
+    """Every element of a list pattern takes part, as written: the list matcher and the generator of quantifier expansions
+    count over the template they were GIVEN.  The template parameter is never rebound, sliced, filtered or edited in place
+    (merging `[x+, x+]` into `[x+]` accepts a single element where the regular-expression reading demands two), the loops
+    that fill the count table / the length bounds iterate that parameter, and the matcher hands the same object on."""
+    from ..pathcond import MUTATORS
+    for name, ppos in (("_iter_template_permutations", 0), ("_match_list", 1), ("_match_tuple", 1), ("_match_set", 1)):
+        fn = prog.funcs.get(("core", name))
+        if fn is None:
+            raise AnalysisError(f"anchor core.{name} not found")
+        if len(fn.posparams) <= ppos:
+            raise AnalysisError(f"core.{name}: template parameter not found")
+        t = fn.posparams[ppos]
+        def same_elements(v: ast.AST) -> bool:
+            # list(t) / tuple(t) / t[:] / copy.copy(t): the same elements in the same order
+            if isinstance(v, ast.Call) and norm(v.func) in ("list", "tuple", "copy.copy") and len(v.args) == 1 and not v.keywords:
+                return isinstance(v.args[0], ast.Name) and v.args[0].id == t
+            return isinstance(v, ast.Subscript) and isinstance(v.value, ast.Name) and v.value.id == t and isinstance(v.slice, ast.Slice) \
+                and v.slice.lower is None and v.slice.upper is None and v.slice.step is None
+        rebinds = [n for n in ast.walk(fn.node) if isinstance(n, ast.Name) and n.id == t and isinstance(n.ctx, (ast.Store, ast.Del))
+                   and not (isinstance(parent(n), ast.Assign) and len(parent(n).targets) == 1 and same_elements(parent(n).value))]
+        edits = [n for n in ast.walk(fn.node) if isinstance(n, ast.Call) and isinstance(n.func, ast.Attribute) and n.func.attr in MUTATORS
+                 and isinstance(n.func.value, ast.Name) and n.func.value.id == t]
+        edits += [n for n in ast.walk(fn.node) if isinstance(n, ast.Subscript) and isinstance(n.ctx, (ast.Store, ast.Del)) and isinstance(n.value, ast.Name) and n.value.id == t]
+        bad = rebinds + edits
+        res.decide(not bad, "R12.7", fn.loc(bad[0]) if bad else fn.loc(), fn.fq, f"{t} # the pattern list as given",
+                   "never rebound or edited: every pattern element is counted and matched" if not bad else
+                   f"line {bad[0].lineno}: the pattern list is replaced or edited before it is matched; elements that are dropped or merged no longer constrain the code "
+                   "([x+, x+] must need two elements, [x?, x?] must allow two)")
+    # the matcher passes its own template on to the expansion generator
+    ml = prog.func("core", "_match_list")
+    gen = prog.func("core", "_iter_template_permutations")
+    calls = [c for c in prog.calls_in(ml) if (prog.resolve_call(c.func, ml.mod, ml) or (None, None))[1] is gen]
+    if not calls:
+        res.undecided("R12.7", ml.loc(), ml.fq, "expansions of the pattern list", "call of _iter_template_permutations not found")
+    for c in calls:
+        ok = bool(c.args) and isinstance(c.args[0], ast.Name) and c.args[0].id == ml.posparams[1] and len(c.args) > 1 and norm(c.args[1]).replace(" ", "") == f"len({ml.posparams[0]})"
+        res.decide(ok, "R12.7", ml.loc(c), ml.fq, short(c, 80), "expansions of the whole pattern list for the whole node list" if ok else
+                   "the expansions are not generated from (the pattern list as given, the length of the node list)")
+
+
 # ---------------------------------------------------------------------------------------------- self-test
 from ..selftest import Variant  # noqa: E402
 
 VARIANTS = [
+    Variant("pattern-list-copied", "SILENT", "core", "    node_counts = {}\n    for i, node in enumerate(template):", "    template = list(template)\n    node_counts = {}\n    for i, node in enumerate(template):"),
+    Variant("pattern-list-deduplicated", "FIRE", "core", "    node_counts = {}\n    for i, node in enumerate(template):",
+            "    template = [node for i, node in enumerate(template) if i == 0 or node != template[i - 1] or not isinstance(node, ZeroOrMany)]\n    node_counts = {}\n    for i, node in enumerate(template):", "R12.7"),
     Variant("class-pattern-without-type-params", "FIRE", "core",
             "            decorator_list=new_decorators,\n            body=new_body,\n            **kwargs,\n        )", "            decorator_list=new_decorators,\n            body=new_body,\n        )", "R12.6"),
     Variant("return-unchecked-merge-from-expansion-loop", "FIRE", "core",
